@@ -46,6 +46,8 @@ def scenarios(draw):
         else:
             call["steps"] = draw(st.lists(st.tuples(st.just("c"), st.integers(0, 7)).map(list), max_size=10))
             call["gates"] = []
+        if ci > 0:
+            call["late_before"] = draw(st.lists(st.integers(0, 5), max_size=4))
         calls.append(call)
     spec["calls"] = calls
     spec["mode"] = "sched"
